@@ -86,8 +86,10 @@ PutSummaries(e, t) ==
 
 \* ---- reads ----
 GetBootstrap(i) == IF boot[i] = Absent THEN NotFound ELSE <<boot[i]>>
-RECURSIVE Prefix(_, _, _)
-Prefix(u, s, c) == IF c = 0 \/ s > MaxPeriod \/ u[s] = Absent THEN <<>> ELSE <<u[s]>> \o Prefix(u, s + 1, c - 1)
+\* the records found from period s on, up to c of them, stopping at the first gap (no RECURSIVE operator: TLAPS reads this module)
+Prefix(u, s, c) == LET Has(k) == s + k - 1 <= MaxPeriod /\ u[s + k - 1] # Absent
+                       n == CHOOSE m \in 0..c : (\A k \in 1..m : Has(k)) /\ (m = c \/ ~Has(m + 1))
+                   IN  [k \in 1..n |-> u[s + k - 1]]
 GetUpdates(s, c) ==
    LET got == Prefix(upd, s, c) IN
    IF Len(got) = c THEN got
